@@ -112,6 +112,7 @@ def anyFlag (sessTy : Ty) (flag : String) : List Val → Except String Bool
 def areaFlag (sessTy : Ty) (flag : String) (area : Val) : Except String Bool :=
   match area with
   | .list vs => anyFlag sessTy flag vs
+  | .none => .ok false       -- `if authorizationArea is None: return False`
   | _ => .error "TypeError"
 
 def vInt (v : Val) : Option Int := v.asInt?
@@ -215,10 +216,11 @@ def decodeResponse (abort : Bool) (tb : MsgTables) (cc : Option Int) (encFlag : 
   match cc.bind (lookupTy tb.rspParams) with
   | none => crash "NameError" "process_response: selector_name" s
   | some pty =>
-  mc vals (decodeArea abort tb encFlag pty (path ++ [⟨"parameters", none⟩]) s) fun pv s =>
+  -- `parameter_size_constraint.assert_done()` runs inside the same `try` as the parameter area
+  mc vals ((decodeArea abort tb encFlag pty (path ++ [⟨"parameters", none⟩]) s).bind fun pv s =>
+      if sess then (assertDone abort pid s).bind fun _ s => .ok (pv, s) else .ok (pv, s)) fun pv s =>
   let vals := vals ++ [("parameters", pv)]
   if !sess then finish vals s else
-  (assertDone abort pid s).bind fun _ s =>
   mc vals (decodeSized abort tb.authRsp (path ++ [⟨"authorizationArea", none⟩]) rid s) fun area s =>
   match areaFlag tb.authRsp "encrypt" area with
   | .error cls => crash cls "is_parameter_encryption" s
